@@ -512,6 +512,43 @@ func byteMutants(p *scripted) []hostilePkt {
 		for l := 0; l < len(b); l++ {
 			mk(fmt.Sprintf("%s/prefix%d", s.n, l), b[:l])
 		}
+		// every consistent truncation: chunk length field rewritten, padding restored
+		if len(s.n) > 0 && s.n != "BUNDLE" {
+			for l := 4; l < len(b); l++ {
+				c := append([]byte(nil), b[:l]...)
+				binary.BigEndian.PutUint16(c[2:], uint16(l))
+				for len(c)%4 != 0 {
+					c = append(c, 0)
+				}
+				mk(fmt.Sprintf("%s/trunc%d", s.n, l), c)
+			}
+			// truncate the last TLV consistently as well (chunks that carry parameters / causes)
+			if d, err := wDecode(wNewPacket(1, 1, 1).rawChunk(b).bytes(true)); err == nil && len(d.Chunks) == 1 {
+				ch := d.Chunks[0]
+				tl := ch.Params
+				if len(ch.Causes) > 0 {
+					tl = ch.Causes
+				}
+				if n := len(tl); n > 0 {
+					lastLen := 4 + len(tl[n-1].Val)
+					start := int(ch.Len) - lastLen
+					if start >= 4 && start+4 <= len(b) {
+						for k := 0; k < lastLen; k++ {
+							c := append([]byte(nil), b[:start+max(k, 4)]...)
+							if k < 4 {
+								c = c[:start+4]
+							}
+							binary.BigEndian.PutUint16(c[start+2:], uint16(k))
+							binary.BigEndian.PutUint16(c[2:], uint16(len(c)))
+							for len(c)%4 != 0 {
+								c = append(c, 0)
+							}
+							mk(fmt.Sprintf("%s/tlvtrunc%d", s.n, k), c)
+						}
+					}
+				}
+			}
+		}
 		// every 16-bit length-looking field position set to hostile values (offset 2 = chunk length, then every even offset)
 		for off := 2; off+1 < len(b); off += 2 {
 			true16 := binary.BigEndian.Uint16(b[off:])
